@@ -4,6 +4,12 @@ import json, os
 V = os.path.dirname(os.path.dirname(os.path.abspath(__file__)))
 
 CLAIMED = {
+ "C05": {
+  "text": "Outcome(target, value) is a TLA+ function over digit sequences (exact bounds up to 2^128). TLC enumerates 30 targets x the 2^k boundary universe in both integer forms x every other kind (17 400 points) and checks Outcome against independently worded facts (ok iff admissible and in domain, violated bound really violated, widening, 128-bit targets accept all of u64/i64); every point is replayed through the real impls via serde_json and a second value source, every integer of [-70000,70000] is swept for every target/form/source and validated by TLC per run-length-encoded stretch, plus seeded random numbers, strings and f32 double-rounding witnesses. Structured results (value, accepted kinds, digit runs of the message) are validated line by line by TLC.",
+  "note": "IEEE rounding into f32/f64 is decided by a harness-side oracle independent of `as` (exact decimal expansion + correctly rounded parse), not by TLA+. 64-bit usize assumed. Message wording is not compared: only the received number, the violated bound, 'zero'/'empty', the string and its length.",
+  "technique": "TLA+ function definition checked by TLC on a boundary universe; spec->impl replay; impl->spec trace validation incl. exhaustive sweep",
+  "design_ref": "DESIGN.md section 5 (C05)",
+ },
  "C18": {
   "text": "The suggestion rule (byte-length budget, unrestricted Damerau-Levenshtein distance over scalar values, earliest minimal candidate) is a TLA+ function. TLC proves on every pair of strings over a 3-symbol alphabet up to length 4 (quick) / 5 (thorough) that the Lowrance-Wagner DP used by the spec equals the shortest-path distance of the four-operation edit graph (Zero/Lipschitz/Descent invariants) and checks the structural facts of the property; all enumerated (received, candidates) inputs, a wide alphabet with 2- and 4-byte symbols, and seeded random multi-candidate lists around every byte threshold are executed on the real did_you_mean and each returned string is validated verbatim by TLC.",
   "note": "Bounded: exhaustive pairs up to length 4/5 over 3 symbols; random strings up to 30 bytes, lists up to ~10 candidates. Trusted: TLC, Json module, harness s.chars() encoding.",
